@@ -416,7 +416,29 @@ class ExprMixin:
 
     # -- attribute / subscript
     def ex_Attribute(self, node, fr):
+        v = node.value
+        if isinstance(v, ast.Call) and isinstance(v.func, ast.Name) and v.func.id == 'super' and not v.args:
+            return self.super_attr(fr, node.attr)
         return self.get_attr(self.eval(node.value, fr), node.attr)
+
+    def super_attr(self, fr, name):
+        """zero-argument super().name inside a method interpreted from source"""
+        fo = fr.fn_obj
+        if fo is None or '.' not in fo.__qualname__:
+            raise Unsupported('super() outside a method')
+        defcls = fo.__globals__.get(fo.__qualname__.split('.')[-2])
+        if not isinstance(defcls, type):
+            raise Unsupported('super(): defining class not found')
+        selfv = fr.locals.get(fo.__code__.co_varnames[0])
+        if isinstance(selfv, Cell):
+            selfv = selfv.v
+        for k in defcls.__mro__[1:]:
+            if name in k.__dict__:
+                f = k.__dict__[name]
+                if isinstance(f, types.FunctionType):
+                    return BoundMeth(selfv, f)
+                return f
+        raise TargetExc(self.make_exception(AttributeError, [name], {}))
 
     def ex_Subscript(self, node, fr):
         base = self.eval(node.value, fr)
@@ -772,7 +794,7 @@ class ExprMixin:
             return list(v.keys())
         if isinstance(v, str):
             return list(v)
-        if isinstance(v, (SSeqV, MSet, SSetV, SMapV, SymRange, SymEnumerate)):
+        if isinstance(v, (SSeqV, MSet, SSetV, SMapV, SymRange, SymEnumerate, SymZip)):
             return None
         if isinstance(v, (dict.keys.__class__,)):
             return list(v)
